@@ -83,6 +83,20 @@ func take(c chan T) T {
 	x = <-c
 	return x
 }
+
+func prod(c chan T) {
+	c <- 1
+	c <- 2
+	c <- 3
+	c <- 4
+}
+
+func prodtwo(a chan T, b chan T) {
+	a <- 1
+	b <- 5
+	a <- 2
+	b <- 10
+}
 `
 
 type chanScenario struct {
@@ -90,6 +104,8 @@ type chanScenario struct {
 	body  []string // statements of main after the standard declarations
 	chans []string // channels declared at the top of main
 	rej   bool
+	any   bool // the compiler may refuse the program (construct outside its subset): judged only if accepted
+	ncomp int  // independent compilations (0 = chanCompilations)
 }
 
 func chanSource(sc chanScenario, rsize int) string {
@@ -112,6 +128,12 @@ func chanSource(sc chanScenario, rsize int) string {
 	}
 	if regexp.MustCompile(`\by\b`).MatchString(body) {
 		b.WriteString("\tvar y T\n")
+	}
+	if regexp.MustCompile(`\bx\b`).MatchString(body) {
+		b.WriteString("\tvar x T\n")
+	}
+	if regexp.MustCompile(`\bv\b`).MatchString(body) {
+		b.WriteString("\tvar v T\n")
 	}
 	if strings.Contains(body, "o0") {
 		b.WriteString("\to0 = bondgo.Make(bondgo.Output, 3)\n")
@@ -199,6 +221,46 @@ func channelScenarios(thorough bool) []chanScenario {
 	return out
 }
 
+// exprOrderScenarios: EXPRESSION ORDER sub-family.  A producer goroutine sends an ascending sequence
+// (1,2,3,4 on one channel; 1,5,2,10 alternately on two channels a,b); main computes x = L op R twice and
+// writes x to its output each time.  L and R range over the operand forms below (all ordered pairs):
+// Go evaluates the communications of an expression left to right.
+var exprForms = []string{"<-C", "<-C*3", "<-C+1", "(<-C)", "take(C)", "2", "v"}
+
+func exprOrderScenarios(thorough bool) []chanScenario {
+	var out []chanScenario
+	hasComm := func(f string) bool { return strings.Contains(f, "C") }
+	slice := map[string]bool{"<-C": true, "<-C*3": true, "take(C)": true, "v": true}
+	for _, op := range []string{"+", "*"} {
+		for _, two := range []bool{false, true} {
+			for _, l := range exprForms {
+				for _, r := range exprForms {
+					if op == "*" && !thorough && !(slice[l] && slice[r]) {
+						continue // quick: a slice of the pairs for *
+					}
+					if two && !hasComm(l) {
+						continue // two channels: the producer starts with channel a, which only the left operand uses
+					}
+					lc, rc := "c", "c"
+					sc := chanScenario{chans: []string{"c"}}
+					start := "go prod(c)"
+					if two {
+						lc, rc = "a", "b"
+						sc.chans = []string{"a", "b"}
+						start = "go prodtwo(a, b)"
+					}
+					e := strings.ReplaceAll(l, "C", lc) + " " + op + " " + strings.ReplaceAll(r, "C", rc)
+					sc.name = fmt.Sprintf("expression-order:%s|%s|%s|two-channels=%v", l, op, r, two)
+					sc.body = []string{"v = 7", start, "x = " + e, "bondgo.IOWrite(o0, x)", "x = " + e, "bondgo.IOWrite(o0, x)"}
+					sc.any = strings.Contains(e, "(")
+					out = append(out, sc)
+				}
+			}
+		}
+	}
+	return out
+}
+
 func channelPrograms(thorough bool) (progs []*semProg, descr []string) {
 	rsizes := []int{8}
 	if thorough {
@@ -207,13 +269,22 @@ func channelPrograms(thorough bool) (progs []*semProg, descr []string) {
 	for _, rs := range rsizes {
 		n0 := len(progs)
 		for _, sc := range channelScenarios(thorough) {
-			p := &semProg{Rsize: rs, Size: len(sc.body), Alpha: "channel:" + sc.name, Source: chanSource(sc, rs), Expect: "accepted", Mpm: true}
+			p := &semProg{Rsize: rs, Size: len(sc.body), Alpha: "channel:" + sc.name, Source: chanSource(sc, rs), Expect: "accepted", Mpm: true, Compilations: chanCompilations}
 			if sc.rej {
 				p.Expect = "rejected"
 			}
 			progs = append(progs, p)
 		}
 		descr = append(descr, fmt.Sprintf("uint%d/channel-goroutine:%d", rs, len(progs)-n0))
+		n0 = len(progs)
+		for _, sc := range exprOrderScenarios(thorough) {
+			p := &semProg{Rsize: rs, Size: len(sc.body), Alpha: "channel:" + sc.name, Source: chanSource(sc, rs), Expect: "accepted", Mpm: true, Compilations: 2}
+			if sc.any {
+				p.Expect = "any"
+			}
+			progs = append(progs, p)
+		}
+		descr = append(descr, fmt.Sprintf("uint%d/channel-expression-order:%d", rs, len(progs)-n0))
 	}
 	return
 }
@@ -240,15 +311,123 @@ func channelFeatures(src string) []string {
 	if n := strings.Count(mainBody, "\tgo "); n >= 2 {
 		f["two-goroutines"] = true
 	}
+	for k := range exprOrderFeatures(src) {
+		f[k] = true
+	}
 	if len(f) == 0 {
 		f["channel-send-receive-goroutine"] = true
 	}
 	return keys(f)
 }
 
+// exprOrderFeatures describes the first `x = L op R` of main whose operands communicate: where the
+// communications sit (bare receive / receive nested in a compound operand / call of a function).
+func exprOrderFeatures(src string) map[string]bool {
+	f := map[string]bool{}
+	file, err := parser.ParseFile(token.NewFileSet(), "p.go", src, 0)
+	if err != nil {
+		return f
+	}
+	var kind func(x ast.Expr) string // "" | recv | nested-recv | call
+	kind = func(x ast.Expr) string {
+		switch t := x.(type) {
+		case *ast.UnaryExpr:
+			if t.Op == token.ARROW {
+				return "recv"
+			}
+		case *ast.ParenExpr:
+			if kind(t.X) != "" {
+				return "paren-" + strings.TrimPrefix(kind(t.X), "paren-")
+			}
+		case *ast.CallExpr:
+			if _, ok := t.Fun.(*ast.Ident); ok {
+				return "call"
+			}
+		case *ast.BinaryExpr:
+			if kind(t.X) != "" || kind(t.Y) != "" {
+				return "nested-recv"
+			}
+		}
+		return ""
+	}
+	chans := map[string]bool{}
+	var collect func(x ast.Expr)
+	collect = func(x ast.Expr) {
+		switch t := x.(type) {
+		case *ast.UnaryExpr:
+			if id, ok := t.X.(*ast.Ident); ok && t.Op == token.ARROW {
+				chans[id.Name] = true
+			}
+		case *ast.ParenExpr:
+			collect(t.X)
+		case *ast.BinaryExpr:
+			collect(t.X)
+			collect(t.Y)
+		case *ast.CallExpr:
+			for _, a := range t.Args {
+				if id, ok := a.(*ast.Ident); ok && (id.Name == "a" || id.Name == "b" || id.Name == "c") {
+					chans[id.Name] = true
+				}
+			}
+		}
+	}
+	for _, d := range file.Decls {
+		fd, ok := d.(*ast.FuncDecl)
+		if !ok || fd.Name.Name != "main" {
+			continue
+		}
+		for _, s := range fd.Body.List {
+			as, ok := s.(*ast.AssignStmt)
+			if !ok {
+				continue
+			}
+			be, ok := as.Rhs[0].(*ast.BinaryExpr)
+			if !ok {
+				continue
+			}
+			if kind(be) == "" {
+				continue
+			}
+			// every binary node of the expression whose operands communicate
+			var nodes func(x ast.Expr)
+			nodes = func(x ast.Expr) {
+				switch t := x.(type) {
+				case *ast.ParenExpr:
+					nodes(t.X)
+				case *ast.BinaryExpr:
+					if l := kind(t.X); l != "" {
+						f["expr:left-"+l] = true
+					}
+					if r := kind(t.Y); r != "" {
+						f["expr:right-"+r] = true
+					}
+					nodes(t.X)
+					nodes(t.Y)
+				}
+			}
+			nodes(be)
+			collect(be)
+			if len(chans) >= 2 {
+				f["expr:two-channels"] = true
+			}
+			return f
+		}
+	}
+	return f
+}
+
 func isChannelProgram(src string) bool { return strings.Contains(src, " chan ") }
 
 // ------------------------------------------------------------------ reference evaluator (go/ast, small step)
+//
+// Every goroutine executes the statements of its frames one at a time.  A statement may contain
+// several communication operations (receives inside expressions, calls of ordinary functions that
+// send / receive): they are performed strictly LEFT TO RIGHT (Go: operands, function calls and
+// communication operations are evaluated in lexical left-to-right order).  A statement that reaches
+// a communication that cannot proceed is abandoned and re-executed from its start once the rendezvous
+// happened, replaying the communications it already completed from a log (statements have no other
+// effect before their last communication: assignments store at the end, functions called inside
+// expressions only touch their own fresh locals).
 
 type cval struct {
 	kind string // num | chan | out
@@ -274,20 +453,19 @@ func (e *cenv) lookup(n string) *cval {
 }
 
 type cframe struct {
-	stmts  []ast.Stmt
-	idx    int
-	env    *cenv
-	isCall bool  // function frame: a return pops up to and including it
-	dst    *cval // where the return value goes
+	stmts []ast.Stmt
+	idx   int
+	env   *cenv
 }
 
 type gor struct {
 	frames []*cframe
+	log    []uint64 // communications of the current statement already completed (received values)
+	pos    int
 	// blocked operation
 	want string // "" | send | recv
 	ch   *rchan
 	val  uint64
-	dst  *cval
 	done bool
 }
 
@@ -296,6 +474,9 @@ type chanRefResult struct {
 	Blocked int              // goroutines blocked forever at quiescence
 	Err     string
 }
+
+type refBlocked struct{}
+type refReturn struct{ v *cval }
 
 func chanRefEval(src string, rsize int) chanRefResult {
 	fset := token.NewFileSet()
@@ -318,7 +499,7 @@ func chanRefEval(src string, rsize int) chanRefResult {
 	}
 	nchan := 0
 	var gs []*gor
-	newG := func(fd *ast.FuncDecl, args []*cval) *gor {
+	bind := func(fd *ast.FuncDecl, args []*cval) *cenv {
 		env := &cenv{vars: map[string]*cval{}}
 		i := 0
 		if fd.Type.Params != nil {
@@ -332,12 +513,57 @@ func chanRefEval(src string, rsize int) chanRefResult {
 				}
 			}
 		}
-		g := &gor{frames: []*cframe{{stmts: fd.Body.List, env: env, isCall: true}}}
-		gs = append(gs, g)
-		return g
+		return env
 	}
-	var eval func(env *cenv, x ast.Expr) *cval
-	eval = func(env *cenv, x ast.Expr) *cval {
+	// comm performs the next communication of the current statement of g, or abandons the statement
+	comm := func(g *gor, kind string, ch *rchan, val uint64) uint64 {
+		if g.pos < len(g.log) {
+			v := g.log[g.pos]
+			g.pos++
+			return v
+		}
+		g.want, g.ch, g.val = kind, ch, val
+		panic(refBlocked{})
+	}
+	var eval func(g *gor, env *cenv, x ast.Expr) *cval
+	var exec func(g *gor, env *cenv, s ast.Stmt, top bool)
+	call := func(g *gor, env *cenv, c *ast.CallExpr) *cval {
+		id, ok := c.Fun.(*ast.Ident)
+		if !ok {
+			fail("unsupported call")
+			return &cval{kind: "num"}
+		}
+		fd := funcs[id.Name]
+		if fd == nil {
+			fail("undefined function %s", id.Name) // e.g. make: the evaluator mirrors the accepted subset
+			return &cval{kind: "num"}
+		}
+		var args []*cval
+		for _, a := range c.Args {
+			args = append(args, eval(g, env, a))
+		}
+		fenv := bind(fd, args)
+		var rv *cval
+		func() {
+			defer func() {
+				if p := recover(); p != nil {
+					if r, ok := p.(refReturn); ok {
+						rv = r.v
+						return
+					}
+					panic(p)
+				}
+			}()
+			for _, s := range fd.Body.List {
+				exec(g, fenv, s, false)
+			}
+		}()
+		if rv == nil {
+			rv = &cval{kind: "num"}
+		}
+		return rv
+	}
+	eval = func(g *gor, env *cenv, x ast.Expr) *cval {
 		switch t := x.(type) {
 		case *ast.BasicLit:
 			u, _ := strconv.ParseUint(t.Value, 0, 64)
@@ -349,21 +575,132 @@ func chanRefEval(src string, rsize int) chanRefResult {
 				return &cval{kind: "num"}
 			}
 			return v
+		case *ast.ParenExpr:
+			return eval(g, env, t.X)
+		case *ast.UnaryExpr:
+			if t.Op == token.ARROW {
+				c := eval(g, env, t.X)
+				return &cval{kind: "num", u: comm(g, "recv", c.ch, 0) & mask}
+			}
 		case *ast.BinaryExpr:
-			l, r := eval(env, t.X), eval(env, t.Y)
+			l := eval(g, env, t.X) // left operand first, completely
+			lu := l.u
+			r := eval(g, env, t.Y)
 			switch t.Op {
 			case token.ADD:
-				return &cval{kind: "num", u: (l.u + r.u) & mask}
+				return &cval{kind: "num", u: (lu + r.u) & mask}
 			case token.MUL:
-				return &cval{kind: "num", u: (l.u * r.u) & mask}
+				return &cval{kind: "num", u: (lu * r.u) & mask}
 			}
+		case *ast.CallExpr:
+			return call(g, env, t)
 		}
 		fail("unsupported expression %T", x)
 		return &cval{kind: "num"}
 	}
+	exec = func(g *gor, env *cenv, s ast.Stmt, top bool) {
+		switch x := s.(type) {
+		case *ast.DeclStmt:
+			gd := x.Decl.(*ast.GenDecl)
+			for _, sp := range gd.Specs {
+				vs := sp.(*ast.ValueSpec)
+				for _, n := range vs.Names {
+					v := &cval{kind: "num"}
+					switch vs.Type.(type) {
+					case *ast.ChanType:
+						nchan++
+						v = &cval{kind: "chan", ch: &rchan{id: nchan}}
+					case *ast.SelectorExpr:
+						v = &cval{kind: "out"}
+					}
+					env.vars[n.Name] = v
+				}
+			}
+		case *ast.AssignStmt:
+			id, ok := x.Lhs[0].(*ast.Ident)
+			if !ok || len(x.Rhs) != 1 {
+				fail("unsupported assignment")
+				return
+			}
+			dst := env.lookup(id.Name)
+			if dst == nil {
+				fail("undefined %s", id.Name)
+				return
+			}
+			if c, ok := x.Rhs[0].(*ast.CallExpr); ok {
+				if se, ok := c.Fun.(*ast.SelectorExpr); ok {
+					if se.Sel.Name == "Make" {
+						k, _ := strconv.Atoi(c.Args[1].(*ast.BasicLit).Value)
+						dst.out = k
+						return
+					}
+					fail("unsupported call %s", se.Sel.Name)
+					return
+				}
+			}
+			v := eval(g, env, x.Rhs[0])
+			if v.kind == "chan" {
+				dst.kind, dst.ch = "chan", v.ch // Go: both names now denote the same channel
+			} else {
+				dst.u = v.u & mask
+			}
+		case *ast.SendStmt:
+			c := eval(g, env, x.Chan)
+			v := eval(g, env, x.Value)
+			comm(g, "send", c.ch, v.u&mask)
+		case *ast.ExprStmt:
+			c, ok := x.X.(*ast.CallExpr)
+			if !ok {
+				fail("unsupported expression statement")
+				return
+			}
+			if se, ok := c.Fun.(*ast.SelectorExpr); ok {
+				if se.Sel.Name != "IOWrite" {
+					fail("unsupported call statement")
+					return
+				}
+				o := eval(g, env, c.Args[0])
+				v := eval(g, env, c.Args[1])
+				res.Outs[o.out] = append(res.Outs[o.out], v.u&mask)
+				return
+			}
+			call(g, env, c)
+		case *ast.GoStmt:
+			fd := funcs[x.Call.Fun.(*ast.Ident).Name]
+			if fd == nil {
+				fail("undefined function in go statement")
+				return
+			}
+			var args []*cval
+			for _, a := range x.Call.Args {
+				args = append(args, eval(g, env, a))
+			}
+			gs = append(gs, &gor{frames: []*cframe{{stmts: fd.Body.List, env: bind(fd, args)}}})
+		case *ast.ReturnStmt:
+			var rv *cval
+			if len(x.Results) == 1 {
+				rv = eval(g, env, x.Results[0])
+			}
+			if top {
+				g.frames = nil // return from the goroutine's own function
+				return
+			}
+			panic(refReturn{rv})
+		case *ast.BlockStmt:
+			if top {
+				g.frames = append(g.frames, &cframe{stmts: x.List, env: &cenv{vars: map[string]*cval{}, parent: env}})
+				return
+			}
+			benv := &cenv{vars: map[string]*cval{}, parent: env}
+			for _, s2 := range x.List {
+				exec(g, benv, s2, false)
+			}
+		default:
+			fail("unsupported statement %T", s)
+		}
+	}
 	// step runs g until it blocks or ends
-	var step func(g *gor)
-	step = func(g *gor) {
+	step := func(g *gor) {
 		for res.Err == "" && g.want == "" && !g.done {
 			if len(g.frames) == 0 {
 				g.done = true
@@ -374,134 +711,32 @@ func chanRefEval(src string, rsize int) chanRefResult {
 				g.frames = g.frames[:len(g.frames)-1]
 				continue
 			}
-			s := fr.stmts[fr.idx]
-			fr.idx++
-			switch x := s.(type) {
-			case *ast.DeclStmt:
-				gd := x.Decl.(*ast.GenDecl)
-				for _, sp := range gd.Specs {
-					vs := sp.(*ast.ValueSpec)
-					for _, n := range vs.Names {
-						v := &cval{kind: "num"}
-						switch vs.Type.(type) {
-						case *ast.ChanType:
-							nchan++
-							v = &cval{kind: "chan", ch: &rchan{id: nchan}}
-						case *ast.SelectorExpr:
-							v = &cval{kind: "out"}
+			blocked := false
+			func() {
+				defer func() {
+					if p := recover(); p != nil {
+						if _, ok := p.(refBlocked); ok {
+							blocked = true
+							return
 						}
-						fr.env.vars[n.Name] = v
+						panic(p)
 					}
-				}
-			case *ast.AssignStmt:
-				id, ok := x.Lhs[0].(*ast.Ident)
-				if !ok || len(x.Rhs) != 1 {
-					fail("unsupported assignment")
-					return
-				}
-				dst := fr.env.lookup(id.Name)
-				if dst == nil {
-					fail("undefined %s", id.Name)
-					return
-				}
-				switch r := x.Rhs[0].(type) {
-				case *ast.UnaryExpr:
-					if r.Op != token.ARROW {
-						fail("unsupported unary")
-						return
-					}
-					c := eval(fr.env, r.X)
-					g.want, g.ch, g.dst = "recv", c.ch, dst
-				case *ast.CallExpr:
-					if se, ok := r.Fun.(*ast.SelectorExpr); ok {
-						if se.Sel.Name == "Make" {
-							k, _ := strconv.Atoi(r.Args[1].(*ast.BasicLit).Value)
-							dst.out = k
-							continue
-						}
-						fail("unsupported call %s", se.Sel.Name)
-						return
-					}
-					fn := r.Fun.(*ast.Ident).Name
-					fd := funcs[fn]
-					if fd == nil {
-						fail("undefined function %s", fn) // e.g. make: the evaluator mirrors the accepted subset
-						return
-					}
-					env := &cenv{vars: map[string]*cval{}}
-					i := 0
-					for _, p := range fd.Type.Params.List {
-						for _, n := range p.Names {
-							v := *eval(fr.env, r.Args[i])
-							env.vars[n.Name] = &v
-							i++
-						}
-					}
-					g.frames = append(g.frames, &cframe{stmts: fd.Body.List, env: env, isCall: true, dst: dst})
-				default:
-					v := eval(fr.env, x.Rhs[0])
-					if v.kind == "chan" {
-						dst.kind, dst.ch = "chan", v.ch // Go: both names now denote the same channel
-					} else {
-						dst.u = v.u & mask
-					}
-				}
-			case *ast.SendStmt:
-				c := eval(fr.env, x.Chan)
-				v := eval(fr.env, x.Value)
-				g.want, g.ch, g.val = "send", c.ch, v.u&mask
-			case *ast.ExprStmt:
-				call, ok := x.X.(*ast.CallExpr)
-				if !ok {
-					fail("unsupported expression statement")
-					return
-				}
-				se, ok := call.Fun.(*ast.SelectorExpr)
-				if !ok || se.Sel.Name != "IOWrite" {
-					fail("unsupported call statement")
-					return
-				}
-				o := eval(fr.env, call.Args[0])
-				v := eval(fr.env, call.Args[1])
-				res.Outs[o.out] = append(res.Outs[o.out], v.u&mask)
-			case *ast.GoStmt:
-				fd := funcs[x.Call.Fun.(*ast.Ident).Name]
-				if fd == nil {
-					fail("undefined function in go statement")
-					return
-				}
-				var args []*cval
-				for _, a := range x.Call.Args {
-					args = append(args, eval(fr.env, a))
-				}
-				newG(fd, args)
-			case *ast.ReturnStmt:
-				var rv *cval
-				if len(x.Results) == 1 {
-					rv = eval(fr.env, x.Results[0])
-				}
-				for len(g.frames) > 0 {
-					top := g.frames[len(g.frames)-1]
-					g.frames = g.frames[:len(g.frames)-1]
-					if top.isCall {
-						if top.dst != nil && rv != nil {
-							top.dst.u = rv.u & mask
-						}
-						break
-					}
-				}
-			case *ast.BlockStmt:
-				g.frames = append(g.frames, &cframe{stmts: x.List, env: &cenv{vars: map[string]*cval{}, parent: fr.env}})
-			default:
-				fail("unsupported statement %T", s)
+				}()
+				g.pos = 0
+				exec(g, fr.env, fr.stmts[fr.idx], true)
+			}()
+			if blocked {
+				return
 			}
+			fr.idx++
+			g.log = g.log[:0]
 		}
 	}
 	if funcs["main"] == nil {
 		return chanRefResult{Err: "no main"}
 	}
-	newG(funcs["main"], nil)
-	for round := 0; round < 1000 && res.Err == ""; round++ {
+	gs = append(gs, &gor{frames: []*cframe{{stmts: funcs["main"].Body.List, env: &cenv{vars: map[string]*cval{}}}}})
+	for round := 0; round < 2000 && res.Err == ""; round++ {
 		for i := 0; i < len(gs); i++ { // gs may grow
 			step(gs[i])
 		}
@@ -514,7 +749,8 @@ func chanRefEval(src string, rsize int) chanRefResult {
 			}
 			for _, r := range gs {
 				if r != s && r.want == "recv" && r.ch == s.ch && s.ch != nil {
-					r.dst.u = s.val
+					r.log = append(r.log, s.val)
+					s.log = append(s.log, 0)
 					s.want, r.want = "", ""
 					matched = true
 					break match
@@ -745,7 +981,7 @@ func judgeChannel(xw *execWorker, p *semProg, cs []compiled) *semOutcome {
 	}
 	oc.Asm = asmListing(sets[0])
 	if _, ok := sets[0]["bm.json"]; !ok {
-		if p.Expect == "rejected" {
+		if p.Expect == "rejected" || p.Expect == "any" {
 			oc.Class = "rejected-as-expected"
 		} else {
 			oc.Class, oc.Detail = "rejected", firstLine(oc.Log)
@@ -839,6 +1075,7 @@ func judgeChannel(xw *execWorker, p *semProg, cs []compiled) *semOutcome {
 	case differ != nil:
 		differ.HDLNote, differ.ExpectedMP, differ.GotMP = oc.HDLNote, oc.ExpectedMP, oc.GotMP
 		if wrong != nil {
+			wrong.WiringSuspect = true
 			last := differ
 			for last.Extra != nil {
 				last = last.Extra
